@@ -10,6 +10,7 @@ namespace Driver.C15
   `fs` = [[abs components, size | null]] (everything that exists in the scratch file system).
 
   * `c15.queries` ↦ the strings the model / the spec will hand to `casefold`, `fnmatch`, `re`
+  * `c15.files`   (`items` = [{path:[…], size}], `cwd`, `fs`) ↦ model of `Torrent.files = …`
   * `c15.create`  (+ tables `cf` = [[s, casefold s]], `glob` = [[text, pattern, bool]],
                    `rex` = [[pattern, text, bool]]) ↦ model, spec, hyp (+ its conjuncts),
                    `listed` = model of `utils.list_files`
@@ -48,7 +49,7 @@ def parseCase (j : Json) : Except String Case := do
     pure (comps, sz)
   pure ⟨⟨name, files⟩, st, cwd, parse sp, order, fs⟩
 
-def Case.env (c : Case) : Env := ⟨c.cwd, c.spelling, c.order, fsProbe c.fs c.cwd⟩
+def Case.env (c : Case) : Env := ⟨c.cwd, c.spelling, c.order, fsExists c.fs c.cwd⟩
 
 def createdJson : Created → Json
   | .empty => jobj [("kind", "empty")]
@@ -59,11 +60,13 @@ def createdJson : Created → Json
 def resultJson : Except Err Created → Json
   | .ok c => createdJson c
   | .error .relativeTo => jobj [("kind", "error"), ("err", "ValueError:relative_to")]
+  | .error .commonPath => jobj [("kind", "error"), ("err", "CommonPathError")]
 
 /-- the pattern-path strings `filter_files` builds for the listed files (model) -/
 def modelPatPaths (c : Case) : List String :=
   let B := pathlibNorm c.spelling
-  let listed := listFiles id B c.order
+  -- `filter_files` only sees what `_set_files`' own empty-file rule has left
+  let listed := dropEmpty (fsExists c.fs c.cwd) (listFiles id B c.order)
   match withGetter c.cwd (abspath c.cwd B) listed with
   | .ok items =>
     let base := (commonpath (items.map (·.2))).getD c.cwd
@@ -102,34 +105,46 @@ def create (j : Json) : Except String Json := do
   let o ← parseOracles j
   let env := c.env
   let model := pathSetter o c.st env
-  -- the same model with the empty-file probe answering for the tree's own file (what a repair
-  -- of D15a alone would give); only used by the finding matchers of the other defect classes
-  let trueProbe : Comps → Option Nat := fun fp =>
-    (c.tree.files.find? fun f => f.rel == fp.drop 1).map (·.size)
-  let modelPF := pathSetter o c.st { env with probe := trueProbe }
   let spec := Spec.created o c.st c.tree
   let B := pathlibNorm c.spelling
   let listed := (listFiles o.cf B c.order).map fun it => jstr (walkStr B it.ent)
-  return jobj [("model", resultJson model), ("modelProbeFixed", resultJson modelPF),
+  return jobj [("model", resultJson model),
                ("spec", createdJson spec),
                ("modelEqSpec", jbool (model == .ok spec)),
                ("hyp", jbool (Spec.hypB c.st env c.tree)),
-               ("hypName", "cleanTree ∧ spellOK ∧ nameOK ∧ probeOK ∧ prefixOK ∧ order.isPerm"),
+               ("hypName", "cleanTree ∧ spellOK ∧ nameOK ∧ listedExist ∧ prefixOK ∧ order.isPerm"),
                ("hypParts", jobj [("cleanTree", jbool (Spec.cleanTree c.tree)),
                                   ("spellOK", jbool (Spec.spellOK env c.tree)),
                                   ("nameOK", jbool (Spec.nameOK env c.tree)),
-                                  ("probeOK", jbool (Spec.probeOK env c.tree)),
+                                  ("listedExist", jbool (Spec.listedExist env c.tree)),
                                   ("prefixOK", jbool (Spec.prefixOK c.st c.tree)),
                                   ("perm", jbool (c.order.isPerm c.tree.files))]),
-               ("probeWrong", jarr ((c.tree.files.filter fun f =>
-                    probeEmpty env.probe (c.tree.name :: f.rel) != (f.size == 0)).map fun f =>
-                    jarr (f.rel.map jstr))),
                ("listed", jarr listed)]
+
+/-- `Torrent.files = [File(path, size), …]` without patterns, in `cwd` on file system `fs`
+    (correspondence only: the `files` setter is outside C15's statement) -/
+def filesSet (j : Json) : Except String Json := do
+  let cwd ← getStrs j "cwd"
+  let fsj ← getArr j "fs"
+  let fs ← fsj.mapM fun e => do
+    let a ← e.getArr?
+    let p ← (a[0]?.getD Json.null).getArr?
+    let comps ← p.toList.mapM fun c => c.getStr?
+    let sz : Option Nat := ((a[1]?.getD Json.null).getNat?).toOption
+    pure (comps, sz)
+  let ij ← getArr j "items"
+  let items ← ij.mapM fun f => do
+    let path ← getStrs f "path"
+    let size ← getNat f "size"
+    pure (path, size)
+  let o : Oracles := ⟨id, fun _ _ => false, fun _ _ => false⟩
+  return jobj [("model", resultJson (filesSetter o ⟨[], [], [], []⟩ cwd (fsExists fs cwd) items))]
 
 def handle (op : String) (j : Json) : Except String Json :=
   match op with
   | "c15.queries" => queries j
   | "c15.create" => create j
+  | "c15.files" => filesSet j
   | _ => throw s!"unknown op {op}"
 
 end Driver.C15
